@@ -37,7 +37,8 @@ def sort_text(t):
         n = t[1]
         if "{" in n:
             base, rest = n.split("{", 1)
-            return "(%s %s)" % (base, " ".join(a.strip() for a in rest[:-1].split(",")))
+            return "(%s %s)" % (quote(base), " ".join(sort_text(a.strip() if a.strip() in ("Int", "Real", "Bool", "String")
+                                                               else ("Sort", a.strip())) for a in rest[:-1].split(",")))
         return quote(n)
     raise ValueError(t)
 
